@@ -321,7 +321,7 @@ def match_known(f: Failure, known):
         if e.get('kind', 'known') != 'known':
             continue   # 'fixed' entries suppress nothing
         sigs = e.get('signatures') or ([e['signature']] if e.get('signature') else [])
-        if f.sig in sigs:
+        if f.sig in sigs or f.sig == e.get('id'):
             return e
         import fnmatch
         for pat in e.get('patterns', []):
@@ -393,7 +393,7 @@ def run_check(pid: str, tier: str, seed: int, replay: str | None = None) -> int:
                                      'what': e.get('what')})
                     if tmp.failures:
                         f0 = tmp.failures[0]
-                        sig = f0.sig if match_known(f0, [e]) else (sigs[0] if sigs else f0.sig)
+                        sig = f0.sig if match_known(f0, [e]) else (sigs[0] if sigs else e['id'])
                         ctx.fail(sig, e.get('what', f0.what), e['witness'])
                     else:
                         ctx.notes.setdefault('known_witness_no_longer_fails', []).append(e['id'])
